@@ -100,6 +100,23 @@ def begin (s : State) (t : Nat) (lvl : Level) : State × Out :=
 
 def close (s : State) (t : Nat) : State := { s with open_ := s.open_.filter (·.id ≠ t) }
 
+/-- the keys the transaction wrote -/
+def writtenS (dom : List Key) (own : Key → Option SVer) : List Key := dom.filter (fun k => (own k).isSome)
+
+/-- write-write conflict: some written key had a value committed after the transaction began -/
+def conflictS (s : State) (tx : STx) : Bool :=
+  tx.level.snapshot && (writtenS s.dom tx.own).any (fun k =>
+    match committed s k with
+    | some v => v.stamp > tx.beginStamp
+    | none => false)
+
+/-- all own writes become the committed values, atomically, with one fresh stamp -/
+def publishS (s : State) (tx : STx) : State :=
+  { s with clock := s.clock + 1,
+           hist := fun k => match tx.own k with
+             | some v => if k ∈ writtenS s.dom tx.own then s.hist k ++ [⟨s.clock + 1, v.val⟩] else s.hist k
+             | none => s.hist k }
+
 /-- commit: snapshot levels fail iff some written key had a value committed after the begin stamp;
     otherwise all own writes become the committed values, atomically, with one fresh stamp -/
 def commit (s : State) (t : Nat) : State × Out :=
@@ -107,19 +124,9 @@ def commit (s : State) (t : Nat) : State × Out :=
   | none => (s, .err .txNotFound)
   | some tx =>
     let s := close s t
-    let written := s.dom.filter (fun k => (tx.own k).isSome)
-    let conflict := tx.level.snapshot && written.any (fun k =>
-      match committed s k with
-      | some v => v.stamp > tx.beginStamp
-      | none => false)
-    if conflict then (s, .err .txSerialization)
-    else if written.isEmpty then (s, .ok)
-    else
-      let st := s.clock + 1
-      ({ s with clock := st,
-                hist := fun k => match tx.own k with
-                  | some v => if k ∈ written then s.hist k ++ [⟨st, v.val⟩] else s.hist k
-                  | none => s.hist k }, .ok)
+    if conflictS s tx then (s, .err .txSerialization)
+    else if (writtenS s.dom tx.own).isEmpty then (s, .ok)
+    else (publishS s tx, .ok)
 
 def rollback (s : State) (t : Nat) : State × Out := (close s t, .ok)
 
